@@ -116,7 +116,15 @@ impl Director for ScriptDirector {
             return PendDec::Resume;
         }
         match self.steps.pop_front().unwrap() {
-            Step::Adv { to } => PendDec::Adv(to),
+            Step::Adv { to } => {
+                // bytes that arrive at the very instant the clock reaches `to`
+                if let Some(Step::B { .. }) = self.steps.front() {
+                    if let Some(Step::B { bytes }) = self.steps.pop_front() {
+                        return PendDec::AdvInject(to, bytes);
+                    }
+                }
+                PendDec::Adv(to)
+            }
             Step::B { bytes } => PendDec::Inject(bytes),
             Step::Cancel {} => PendDec::Cancel,
             other => PendDec::Mismatch(format!(
